@@ -504,6 +504,7 @@ func C16(p *core.Program, r *core.Report) {
 	checkRegistryKeys(p, r)
 	checkReportChannelNeverClosed(p, r)
 	checkRemovalSerialisedWithRegistration(p, r)
+	checkFailedStartReleasesConnection(p, r)
 	nRestartable := checkRestartableAdapters(p, r)
 	r.Min("channels closed by an adapter on its way down", 3)
 	r.Count("channels closed by an adapter on its way down", nRestartable)
@@ -1361,4 +1362,78 @@ func checkRemovalSerialisedWithRegistration(p *core.Program, r *core.Report) {
 	}
 	r.Min("removals from the adapter registry", 2)
 	r.Count("removals from the adapter registry", n)
+}
+
+// checkFailedStartReleasesConnection (audit 4): "a failing adapter is retried at the retry interval - a permanent one
+// for ever". The TCPCLv4 Client dials only while its messageSwitch is nil. A Start that fails AFTER the dial (session
+// not established in time) and asks for a retry must give the connection up - reset messageSwitch to nil - or every
+// later Start runs another handshake on the dead connection and the adapter can never become active again.
+func checkFailedStartReleasesConnection(p *core.Program, r *core.Report) {
+	start := p.Func("pkg/cla/tcpclv4", "Client", "Start")
+	dial := func(i ssa.Instruction) bool {
+		c, ok := i.(*ssa.Call)
+		if !ok {
+			return false
+		}
+		// the dial is the call of the customStartFunc field
+		ld, isLd := c.Common().Value.(*ssa.UnOp)
+		return isLd && core.IsField(ld.X, "pkg/cla/tcpclv4", "Client", "customStartFunc")
+	}
+	n := 0
+	for _, rv := range core.ReturnValues(start, 1) {
+		if !core.IsBoolConst(rv.V, true) {
+			continue
+		}
+		// an error return? (the error result at the same site is non-nil): approximated by "not the final success return"
+		blk := rv.At.Block()
+		afterDialOK := false
+		for _, cd := range core.DominatingConds(blk) {
+			x, isNil, ok := core.NilCmp(cd)
+			if !ok || !isNil {
+				continue
+			}
+			if c, isCall := x.(*ssa.Call); isCall && dial(c) {
+				afterDialOK = true
+			}
+		}
+		isTimeout := false
+		for _, cd := range core.DominatingConds(blk) {
+			if b, ok := cd.V.(*ssa.BinOp); ok && b.Op == token.EQL && cd.True {
+				if ex, isEx := b.X.(*ssa.Extract); isEx {
+					if sel, isSel := ex.Tuple.(*ssa.Select); isSel {
+						k, _ := core.ConstInt(b.Y)
+						if int(k) < len(sel.States) {
+							if c, isCall := sel.States[k].Chan.(*ssa.Call); isCall && core.CalleeName(c) == "time.After" {
+								isTimeout = true
+							}
+						}
+					}
+				}
+			}
+		}
+		if !isTimeout {
+			_ = afterDialOK
+			continue
+		}
+		n++
+		released := core.MustPassBefore(rv.At, func(i ssa.Instruction) bool {
+			st, ok := i.(*ssa.Store)
+			return ok && core.IsField(st.Addr, "pkg/cla/tcpclv4", "Client", "messageSwitch") && core.IsNilConst(st.Val) && reachesFrom(blk, st)
+		})
+		r.Check(released, "restart/"+fname(start)+"/failed-attempt-released", "a Start that gives up after the dial (establishment timed out, retry requested) resets messageSwitch to nil, so that the retry dials again", p.Pos(rv.At.Pos()), "", "the timed-out attempt leaves messageSwitch set: every retry skips the dial and runs a handshake on the dead connection - the adapter, a permanent one included, never becomes active again")
+	}
+	r.Min("timed-out returns of tcpclv4.Client.Start", 1)
+	r.Count("timed-out returns of tcpclv4.Client.Start", n)
+}
+
+// reachesFrom: the store is in the block itself or in a block that the timeout branch dominates (cheap approximation:
+// same block or a block dominated by blk's immediate dominator chain) - here simply: store's block is blk or dominates it
+// within the select arm.
+func reachesFrom(blk *ssa.BasicBlock, st *ssa.Store) bool {
+	for b := blk; b != nil; b = b.Idom() {
+		if b == st.Block() {
+			return true
+		}
+	}
+	return false
 }
